@@ -198,6 +198,14 @@ static void hpoint(char code, const void *obj)
 }
 NOTSAN static void set_ktid(int t) { slot[t].ktid = (int)syscall(SYS_gettid); }
 NOTSAN static void event_dead(int t) { live_ev[t] = nullptr; }
+// the thread whose waiter owns event `o` (-1: none)
+NOTSAN static int owner_of_event(const void *o)
+{
+    for (int u = 0; u < nthreads; u++)
+        if (live_ev[u] == o)
+            return u;
+    return -1;
+}
 
 static size_t prim_size(char code)
 {
@@ -572,7 +580,7 @@ static void thread_main(Case *c, int t)
 
 static bool parse_case(const std::vector<std::string> &w, Case &c, std::vector<long> &init, std::string &sched)
 {
-    if (w.size() != 4 || (w[0] != "c" && w[0] != "e"))
+    if (w.size() != 4 || (w[0] != "c" && w[0] != "e" && w[0] != "u"))
         return false;
     c.ecase = (w[0] == "e");
     std::string cur;
@@ -658,12 +666,27 @@ static void run_case(const std::vector<std::string> &w, hv::out &o)
                         multipend = true;
                 }
     };
-    auto grant = [&](int t) {
-        if (t >= n || get_st(t) != PARKED)
-        {
-            trace += std::to_string(t) + "- ";
-            return;
-        }
+    // ---- round 3: the order in which ONE unwait_all call signals the waiters
+    // it found queued is not fixed by the property.  `refq` = reference wait
+    // queue kept while the case runs (from the completed enqueue / unlink
+    // points, not from the library's list).  Window = an unwait_all that found
+    // >= 2 waiters, from its first unlink until it arrives at system_unlock:
+    // schedule tokens naming a member are not executed (`t=`), the members'
+    // hand-offs are printed as a sorted set when the window closes.  `literal`
+    // (cases `u`): every token is executed, only order-independent output.
+    bool literal = (w[0] == "u");
+    std::deque<int> refq;
+    int win = -1;
+    std::set<int> mem, tosignal;
+    std::vector<int> dfr;
+    int last_unlinked[MAXT];
+    bool in_all[MAXT];
+    for (int t = 0; t < MAXT; t++) { last_unlinked[t] = -1; in_all[t] = false; }
+    auto cur_op = [&](int t) -> Op {
+        int i = read_ops_done(t);
+        return i < (int)c.prog[t].size() ? c.prog[t][i] : Op{0, 0};
+    };
+    auto grant_core = [&](int t) {
         bool waspend[MAXT];
         unsigned long seq0[MAXT];
         for (int u = 0; u < n; u++)
@@ -673,6 +696,23 @@ static void run_case(const std::vector<std::string> &w, hv::out &o)
             seq0[u] = s.seq;
         }
         char h = get_slot(t).hook;
+        Op op_now = cur_op(t);
+        const void *obj_now = get_slot(t).obj;
+        if (!c.ecase && h == 's')
+        {
+            // ---- oracle: WHO is signalled.  unwait_one: the head of the reference
+            // queue (the longest waiting, or the prioritised one); unwait_all: a
+            // waiter that was queued when the call took the lock, each exactly once.
+            int target = owner_of_event(obj_now);
+            if (op_now.k == 'O' && target != last_unlinked[t])
+                o.fail("unwait_one of thread " + std::to_string(t) + " signals thread " + std::to_string(target) + ", the head of the reference wait queue was thread " + std::to_string(last_unlinked[t]));
+            if (op_now.k == 'A')
+            {
+                if (!tosignal.count(target))
+                    o.fail("unwait_all of thread " + std::to_string(t) + " signals thread " + std::to_string(target) + " which was not queued when the call took the lock, or signals it a second time");
+                tosignal.erase(target);
+            }
+        }
         if (c.ecase && h == 'e' && c.prog[t][read_ops_done(t)].v == 0 && !mirror_flag(c.E))
         {
             // a zero time-out releases the event mutex and takes it again: with
@@ -698,6 +738,22 @@ static void run_case(const std::vector<std::string> &w, hv::out &o)
         {
             set_pending(t, false);
             acts.push_back({t, h});
+            if (!c.ecase && h == 'q')
+            {
+                if (op_now.v) refq.push_front(t); else refq.push_back(t);
+            }
+            if (!c.ecase && h == 'k' && op_now.k == 'O')
+            {
+                last_unlinked[t] = refq.empty() ? -1 : refq.front();
+                if (!refq.empty()) refq.pop_front();
+            }
+            if (!c.ecase && op_now.k == 'A' && in_all[t] && get_slot(t).st == PARKED && get_slot(t).hook == 'U')
+            {
+                // ---- oracle: unwait_all returns only after every waiter it found was signalled
+                in_all[t] = false;
+                if (!tosignal.empty())
+                    o.fail("unwait_all of thread " + std::to_string(t) + " reaches its system_unlock with " + std::to_string(tosignal.size()) + " of the waiters it found queued not signalled (lost wake-up)");
+            }
         }
         // pending threads that got through because of this action
         std::vector<std::pair<unsigned long, int>> woke;
@@ -713,15 +769,67 @@ static void run_case(const std::vector<std::string> &w, hv::out &o)
         }
         (void)seq0;
         for (auto &pr : woke)
-            trace += "+" + std::to_string(pr.second) + " ";
+            if (win >= 0 && mem.count(pr.second))
+                dfr.push_back(pr.second);
+            else
+                trace += "+" + std::to_string(pr.second) + " ";
         for (auto &pr : woke)
             acts.push_back({pr.second, '+'});
         check_multi();
+    };
+    auto grant = [&](int t) {
+        if (win >= 0 && mem.count(t))
+        {
+            trace += std::to_string(t) + "= ";
+            return;
+        }
+        if (t >= n || get_st(t) != PARKED)
+        {
+            trace += std::to_string(t) + "- ";
+            return;
+        }
+        if (!c.ecase && get_slot(t).hook == 'k' && cur_op(t).k == 'A' && !in_all[t])
+        {
+            // first unlink of an unwait_all: everybody queued now must be signalled by this call
+            in_all[t] = true;
+            tosignal = std::set<int>(refq.begin(), refq.end());
+            std::deque<int> ms = refq;
+            refq.clear();
+            if (!literal && win < 0 && ms.size() >= 2)
+            {
+                // members standing at their flag test hold their own event mutex:
+                // they go to sleep first, so that the waker never blocks inside the window
+                std::vector<int> srt(ms.begin(), ms.end());
+                std::sort(srt.begin(), srt.end());
+                for (int m : srt)
+                    if (!hang && !multipend && get_st(m) == PARKED && get_slot(m).hook == 'c')
+                        grant_core(m);
+                if (hang || multipend)
+                    return;
+                win = t;
+                mem = std::set<int>(ms.begin(), ms.end());
+            }
+        }
+        grant_core(t);
+        if (win == t && !hang && get_st(t) == PARKED && get_slot(t).hook == 'U')
+        {
+            std::sort(dfr.begin(), dfr.end());
+            for (int m : dfr)
+                trace += "+" + std::to_string(m) + " ";
+            dfr.clear();
+            mem.clear();
+            win = -1;
+        }
     };
 
     // schedule letter a..f: spurious return of the condition-variable wait of thread 0..5
     bool any_spur = false;
     auto spur = [&](int t) {
+        if (win >= 0 && mem.count(t))
+        {
+            trace += std::to_string(t) + "~= ";
+            return;
+        }
         if (t >= n || !asleep_in_cv(t))
         {
             trace += std::to_string(t) + "~- ";
@@ -773,7 +881,7 @@ static void run_case(const std::vector<std::string> &w, hv::out &o)
             int st = get_st(t);
             if (st != DONE)
                 all_done = false;
-            if (st == PARKED && pick < 0)
+            if (st == PARKED && pick < 0 && !(win >= 0 && mem.count(t)))
                 pick = t;
         }
         if (all_done)
@@ -809,7 +917,7 @@ static void run_case(const std::vector<std::string> &w, hv::out &o)
                     if (tk == "|") continue;
                     if (tk[0] == '+') { int u = tk[1] - '0'; seq.push_back({u, blockedAt[u]}); continue; }
                     int t = tk[0] - '0';
-                    if (tk[1] == '-' || tk[1] == '~') continue;
+                    if (tk[1] == '-' || tk[1] == '~' || tk[1] == '=') continue;
                     if (tk.size() > 2 && tk[2] == '!') { blockedAt[t] = tk[1]; continue; }
                     seq.push_back({t, tk[1]});
                 }
@@ -913,7 +1021,7 @@ static void run_case(const std::vector<std::string> &w, hv::out &o)
                     if (tk == "|") continue;
                     if (tk[0] == '+') { int u = tk[1] - '0'; pts[u].push_back(blockedAt[u]); pts[u].push_back('#'); continue; }
                     int t = tk[0] - '0';
-                    if (tk[1] == '-' || tk[1] == '~') continue;
+                    if (tk[1] == '-' || tk[1] == '~' || tk[1] == '=') continue;
                     if (tk.size() > 2 && tk[2] == '!') { blockedAt[t] = tk[1]; continue; }
                     pts[t].push_back(tk[1]); pts[t].push_back('#');
                 }
@@ -929,7 +1037,7 @@ static void run_case(const std::vector<std::string> &w, hv::out &o)
                     if (tk == "|") continue;
                     if (tk[0] == '+') { int u = tk[1] - '0'; seq.push_back({u, blockedAt[u]}); continue; }
                     int t = tk[0] - '0';
-                    if (tk[1] == '-' || tk[1] == '~') continue;
+                    if (tk[1] == '-' || tk[1] == '~' || tk[1] == '=') continue;
                     if (tk.size() > 2 && tk[2] == '!') { blockedAt[t] = tk[1]; continue; }
                     seq.push_back({t, tk[1]});
                 }
@@ -1021,7 +1129,7 @@ static void run_case(const std::vector<std::string> &w, hv::out &o)
             o.tag("deadlock");
         }
     }
-    o.result = trace + "| " + status + " | " + obs;
+    o.result = (literal ? std::string("u ") : trace) + "| " + status + " | " + obs;
     std::string om = oracle_text();
     if (!om.empty())
         o.fail(om);
@@ -1454,6 +1562,53 @@ static void all_perms_spur(hv::rng &r, const std::string &progs, std::vector<int
             emit_case(progs, "", with_spurs(r, cur, waiter_threads(progs), 1 + (int)r.below(2)));
 }
 
+// ---------------------------------------------------------------------------
+// round 3 generators
+// ---------------------------------------------------------------------------
+static void gen3(hv::rng &r, bool thorough)
+{
+    // --- `u` cases: unwait_all with 2-3 waiters, the schedule is taken literally
+    // also INSIDE the unwait_all call (the members run while the waker is between
+    // two of its steps; a signalled waiter returns and destroys its stack frame -
+    // waiter, list node, event - while the waker goes on to the next waiter).
+    // Only order-independent output is compared; the oracles and TSan judge.
+    g_kind = "u";
+    for (const char *pg : {"W0/W0/A9", "W0/W0/W0/A9", "W1/W0/W1/A9"})
+    {
+        int nw = (int)split(pg, '/').size() - 1;
+        // every waiter asleep; after each step of the waker every waiter gets two grants
+        // (event.wait.unlock, wait.return: it leaves and destroys its frame at once)
+        std::string park, all;
+        for (int t = 0; t < nw; t++) { park += std::string(5, '0' + t); all += std::string(2, '0' + t); }
+        std::string sc = park, wk(1, '0' + nw);
+        for (int k = 0; k < 2 + 4 * nw; k++) sc += wk + all;
+        emit_case(pg, "", sc);
+        // the same with the waiters only enqueued (not yet inside event.wait): the wake races with the park
+        std::string enq;
+        for (int t = 0; t < nw; t++) enq += std::string(3, '0' + t);
+        sc = enq;
+        for (int k = 0; k < 2 + 4 * nw; k++) sc += wk + all;
+        emit_case(pg, "", sc);
+        auto cnt = step_counts(pg);
+        auto wt = waiter_threads(pg);
+        for (int k = 0; k < (thorough ? 600 : 40); k++)
+        {
+            // all waiters enqueued first (3 or 5 steps each, random thread order), then anything
+            std::vector<int> left = cnt;
+            std::string pre;
+            std::vector<int> order;
+            for (int t = 0; t < nw; t++) order.push_back(t);
+            for (int i = nw - 1; i > 0; i--) std::swap(order[i], order[r.below(i + 1)]);
+            for (int t : order) { int d = r.chance(50) ? 3 : 5; pre += std::string(d, '0' + t); left[t] -= d; }
+            std::string rest = rand_sched(r, left, (int)r.below(3));
+            if (k % 2)
+                rest = with_spurs(r, rest, wt, 1 + (int)r.below(3));
+            emit_case(pg, "", pre + rest);
+        }
+    }
+    g_kind = "c";
+}
+
 static void gen(hv::rng &r, const std::string &tier)
 {
     bool thorough = tier == "thorough";
@@ -1620,6 +1775,7 @@ static void gen(hv::rng &r, const std::string &tier)
             emit_case(pg, "", sc);
         }
     }
+    gen3(r, thorough);
 }
 
 int main(int argc, char **argv)
